@@ -163,7 +163,7 @@ func (vc *FuncVC) call(b *ssa.BasicBlock, idx int, ins ssa.Instruction, c *ssa.C
 	// the callee's own parameter names are always available too (contracts verified from source use them)
 	if sc := c.StaticCallee(); sc != nil && len(sc.Params) == len(args) {
 		for i, p := range sc.Params {
-			if _, ok := vars[p.Name()]; !ok && p.Name() != "" {
+			if _, ok := vars[p.Name()]; !ok && p.Name() != "" && !specBuiltins[p.Name()] {
 				vars[p.Name()] = SVal{args[i], argTypes[i]}
 			}
 		}
@@ -271,7 +271,11 @@ func (vc *FuncVC) call(b *ssa.BasicBlock, idx int, ins ssa.Instruction, c *ssa.C
 	if con.Extern || con.Trusted {
 		vc.assumed[key] = true
 	}
-	calleeEnv := &Env{vc: vc, st: pre, old: pre, vars: vars, ctx: con.Ctx}
+	argBind := map[string]SVal{}
+	for k, v := range vars {
+		argBind[k] = v
+	}
+	calleeEnv := &Env{vc: vc, st: pre, old: pre, vars: vars, ctx: con.Ctx, params: argBind}
 	for _, r := range con.Requires {
 		calleeEnv.ctx = r.Ctx
 		t, err := calleeEnv.Bool(r.Expr)
@@ -401,7 +405,7 @@ func (vc *FuncVC) call(b *ssa.BasicBlock, idx int, ins ssa.Instruction, c *ssa.C
 			}
 		}
 	}
-	postEnv := &Env{vc: vc, st: st, old: pre, vars: postVars, ctx: con.Ctx}
+	postEnv := &Env{vc: vc, st: st, old: pre, vars: postVars, ctx: con.Ctx, params: argBind}
 	for _, en := range append(append([]*Clause{}, con.Ensures...), con.GhostEnsures...) {
 		postEnv.ctx = en.Ctx
 		t, err := postEnv.Bool(en.Expr)
@@ -595,6 +599,7 @@ func (vc *FuncVC) builtin(b *ssa.BasicBlock, ins ssa.Instruction, bi *ssa.Builti
 			Eq(App(SInt, "slen", res), total), App(SBool, ">=", App(SInt, "scap", res), total))
 		vc.assume(reach, Or(inplace, fresh))
 		vc.assume(reach, vc.sliceWF(res))
+		vc.assume(reach, vc.arrayTyped(res, sl))
 		vc.setVersion(st, "alloc", Ite(Eq(arrR, Null), al, Store(al, arrR, True)))
 		// frame check: in-place append writes the shared backing array (a slice held in a variable the closure
 		// captured by reference is the closure's own state: see frameCheckAddr)
@@ -618,7 +623,14 @@ func (vc *FuncVC) builtin(b *ssa.BasicBlock, ins ssa.Instruction, bi *ssa.Builti
 				old := vc.cur(pre, key)
 				nv := vc.newVersion(st, key)
 				r := vc.boundVar("r", SRef)
-				vc.emit("(assert %s)", Forall([]Term{r}, Implies(Not(Eq(App(SRef, "root", r), App(SRef, "root", arrR))), Eq(Select(nv, r, ls), Select(old, r, ls))), Select(nv, r, ls)).S)
+				// only element cells of the result's backing array may differ (cells of other objects, and field
+				// cells that merely share the root object, are untouched)
+				er := r
+				if vc.tc.StructInfo(es) != nil || isArraySort(es) {
+					er = App(SRef, "eroot", r) // aggregate elements: the cell may be a field inside an element
+				}
+				isElem := And(Eq(App(SInt, "rkind", er), IntLit(2)), Eq(App(SRef, "elem_base", er), arrR))
+				vc.emit("(assert %s)", Forall([]Term{r}, Implies(Not(isElem), Eq(Select(nv, r, ls), Select(old, r, ls))), Select(nv, r, ls)).S)
 			}
 			j := vc.boundVar("j", SInt)
 			resElem := slElem(res, j)
@@ -842,3 +854,8 @@ func closureOrdinal(fn *ssa.Function) int {
 	}
 	return 0
 }
+
+// names of spec-language builtins: a callee parameter of the same name must not shadow them
+var specBuiltins = map[string]bool{"substr": true, "contains": true, "hasprefix": true, "hassuffix": true, "len": true, "cap": true,
+	"old": true, "forall": true, "exists": true, "forallkeys": true, "has": true, "fresh": true, "ite": true, "box": true,
+	"zero": true, "max": true, "min": true, "in_re": true, "typeis": true, "param": true, "result": true, "string": true}
